@@ -18,7 +18,7 @@ SIM_UNIT = "horizon steps solved"
 BUDGET = {"quick": {"runs": 8000, "wall": 80}, "thorough": {"runs": 60000, "wall": 1500}}
 SHRINK_LISTS = ("ops",)
 PROBES = {"C14": ["second-solve", "solve-at-stale-clock", "solve-after-jump", "solve-after-syscall", "ltv", "lti",
-                  "ns=1", "batch>1", "T=1", "u:none", "u:zeros", "u:random", "u:prev", "u:prev-shifted-in-place", "x_init:non-contiguous", "x_init:expanded", "x_init:zero", "two-lqr-share-system",
+                  "ns=1", "batch>1", "T=1", "u:none", "u:zeros", "u:random", "u:prev", "u:prev-shifted-in-place", "x_init:non-contiguous", "x_init:expanded", "x_init:zero", "x_init:view-of-previous-plan", "solve:no_grad", "solve:split-backward-forward", "u:random-far", "two-lqr-share-system",
                   "mpc-linear", "mpc-nonlinear", "nls-time-dependent", "mpc-nonmonotone", "unstable-A", "cond>1e4", "system:deepcopied"]}
 import os
 TS = float(os.environ.get("PPSIM_TOLSCALE", "1"))
@@ -48,7 +48,8 @@ def generate(seed, tier, prop="C14"):
         x = ro.random()
         if i == 0 or x < 0.55:
             o = {"id": i, "op": "solve", "lqr": ro.randint(0, 1) if cfg["two"] else 0,
-                 "u": ro.choice(["none", "zeros", "random", "prev", "prev-shifted-in-place"])}
+                 "u": ro.choice(["none", "zeros", "random", "random-far", "prev", "prev-shifted-in-place"]),
+                 "how": ro.choice(["call", "call", "call", "no_grad", "split"])}
             if kind == "NLS" or (B == 1 and ro.random() < 0.15):      # MPC: single batch, as documented
                 o["op"] = "mpc"
         elif x < 0.62 and kind in ("LTI", "LTV"):
@@ -196,6 +197,7 @@ def execute(plan, prop, out, tr):
     clock = 0
     prev_u = {}
     prev_obj = {}
+    kept = []               # (x, u) tensors returned earlier, with pristine copies: they are the caller's now
     n_solves = 0
     dirty = None
     for o in plan["ops"]:
@@ -238,17 +240,24 @@ def execute(plan, prop, out, tr):
             u0 = torch.zeros(B, T, nc, dtype=dt)
         elif uk == "random":
             u0 = rng.randn(s, ("u0", i), (B, T, nc), dt)
+        elif uk == "random-far":
+            u0 = rng.randn(s, ("u0", i), (B, T, nc), dt, 1e3)       # a nominal far from the optimum
         elif uk == "prev" and j in prev_u:
             u0 = prev_u[j].clone()
         elif uk == "prev-shifted-in-place" and j in prev_obj and op != "mpc":
             # receding horizon: the very tensor the last solve returned, shifted by one step in place
             u0 = prev_obj[j]
+            kept[:] = [k_ for k_ in kept if k_[1] is not u0]      # the harness itself rewrites this tensor now
             if T > 1:
                 u0[:, :-1] = u0[:, 1:].clone()
             u0[:, -1] = rng.randn(s, ("ushift", i), (B, nc), dt)
         else:
             u0, uk = None, "none"
         out.probe("u:" + uk)
+        how = o.get("how", "call") if op == "solve" else "call"
+        if how == "no_grad" and kept and kept[-1][0].shape[-1] == ns and kept[-1][0].shape[0] == B:
+            x0 = kept[-1][0][:, 1, :]               # receding horizon: a VIEW of the previous plan is the next initial state
+            out.probe("x_init:view-of-previous-plan")
         t_at = int(sysm.systime)
         if n_solves:
             out.probe("second-solve")
@@ -269,6 +278,16 @@ def execute(plan, prop, out, tr):
                     mpc = pp.module.MPC(sysm, mpc_Q, mpc_p, T,
                                         stepper=pp.utils.ReduceToBason(steps=6, patience=2, decreasing=1e-4))
                 x, u, cost = mpc(1, x0, u_init=u0)
+            elif how == "no_grad":
+                with torch.no_grad():
+                    x, u, cost = lqrs[j](x0, u_traj=u0)
+                out.probe("solve:no_grad")
+            elif how == "split":
+                # the two public halves called by hand, the roll-out from another initial state than the backward pass
+                xb0 = rng.randn(s, ("xsplit", i), (B, ns), dt)
+                K_, k_ = lqrs[j].lqr_backward(xb0, 1, u0)
+                x, u, cost = lqrs[j].lqr_forward(x0, K_, k_)
+                out.probe("solve:split-backward-forward")
             else:
                 x, u, cost = lqrs[j](x0, u_traj=u0)
         except Exception as e:
@@ -277,6 +296,13 @@ def execute(plan, prop, out, tr):
                                                        "=1" if T == 1 else ">1"))
         n_solves += 1; dirty = None
         out.sim_time += T; out.ops += 1
+        for px, pu, pxc, puc, pid in kept:
+            if pu is not u0 and (not torch.equal(px, pxc) or not torch.equal(pu, puc)):
+                raise Violation("C14.mutation", ctx + ": the trajectory returned by solve op %d was modified by this later solve"
+                                % pid, i, "mutation:returned-plan")
+        if uk != "prev-shifted-in-place":
+            kept.append((x, u, x.detach().clone(), u.detach().clone(), i))
+        kept[:] = kept[-3:]
         prev_u[j] = u.detach().clone()
         prev_obj[j] = u
         tr.ev("solve", i, x, u, cost)
